@@ -233,7 +233,10 @@ class URI(with_metaclass(URIType)):
 			raise InvalidURI(_(u'Invalid scheme: must only contain alphanumeric letters or plus, dash, dot.'))
 
 		if query_string:
-			query_string = QueryString.encode(QueryString.decode(query_string, self.encoding), self.encoding)
+			try:
+				query_string = QueryString.encode(QueryString.decode(query_string, self.encoding), self.encoding)
+			except UnicodeDecodeError:
+				raise InvalidURI(_(u'Invalid URI: percent-encoded octets must be valid %s.'), self.encoding)
 
 		self.tuple = (
 			scheme,
@@ -327,7 +330,10 @@ class URI(with_metaclass(URIType)):
 			yield quote(fragment, Percent.FRAGMENT)
 
 	def unquote(self, data: bytes) -> str:
-		return Percent.unquote(bytes(data)).decode(self.encoding)
+		try:
+			return Percent.unquote(bytes(data)).decode(self.encoding)
+		except UnicodeDecodeError:
+			raise InvalidURI(_(u'Invalid URI: percent-encoded octets must be valid %s.'), self.encoding)
 
 	def quote(self, data: str, charset: bytes) -> bytes:
 		return Percent.quote(Unicode(data).encode(self.encoding), charset)
